@@ -26,6 +26,9 @@ CHECKS = {
  "C07": ("model_checking", "E1 smallscope", "bounded-exhaustive enumeration of (schema, canonical value, one rewrite at one node) candidates, each validated and written through the real datum, single-object and container writers and read back",
          "For every candidate value (canonical or one de-canonicalising / near-miss rewrite away) of the schema universe: if validation accepts it every validating writer must succeed and the bytes must read back as the same value in canonical form; if validation rejects it every writer must fail and leave no byte. Recorded validation/encoder inconsistencies are reported as known findings by input root-cause pattern.",
          "5 C07", "the forgetful equality relation `same`; one rewrite per candidate"),
+ "C12": ("model_checking", "E1 smallscope + refpcf", "bounded-exhaustive enumeration of schema texts and of every irrelevant edit at every node, compared with an independent Parsing-Canonical-Form implementation, bitwise CRC-64-AVRO and python hashlib; exhaustive byte strings for the fingerprint function",
+         "Every schema text of the universe is canonicalised by the library and by refpcf on the original JSON; Rabin/MD5/SHA-256 fingerprints are recomputed independently; every irrelevant edit (key order, whitespace, doc, aliases, defaults, attributes, redundant namespaces) must leave canonical form and fingerprints unchanged; the canonical form must be a fixpoint; the Rabin digest equals CRC-64-AVRO on every byte string of length <= 2 and the bounded byte universe; a second process reproduces everything.",
+         "5 C12", "refpcf/CRC-64 self-tested against published fingerprints; hashlib trusted"),
 }
 def main():
     checks = []
